@@ -222,16 +222,41 @@ func firstLines(s string, n int) string {
 }
 
 func solveAll(obls []*Obligation, workDir string, timeoutMs int, agree bool, par int) {
-	var wg sync.WaitGroup
-	sem := make(chan struct{}, par)
-	for _, o := range obls {
-		wg.Add(1)
-		sem <- struct{}{}
-		go func(o *Obligation) {
-			defer wg.Done()
-			defer func() { <-sem }()
-			solveObligation(o, workDir, timeoutMs, agree)
-		}(o)
+	pass := func(list []*Obligation, par, timeoutMs int) {
+		var wg sync.WaitGroup
+		sem := make(chan struct{}, par)
+		for _, o := range list {
+			wg.Add(1)
+			sem <- struct{}{}
+			go func(o *Obligation) {
+				defer wg.Done()
+				defer func() { <-sem }()
+				solveObligation(o, workDir, timeoutMs, agree)
+			}(o)
+		}
+		wg.Wait()
 	}
-	wg.Wait()
+	// first pass: all cores (each obligation runs one solver, then up to three)
+	p1 := par * 2 / 3
+	if p1 < 1 {
+		p1 = 1
+	}
+	pass(obls, p1, timeoutMs)
+	// second pass: whatever got no answer is tried again on a quiet machine with a longer limit,
+	// so that a timeout caused by load (ours or anybody else's) does not turn into an alarm
+	var again []*Obligation
+	for _, o := range obls {
+		if o.Status == "unknown" && !o.expectSat {
+			o.Status, o.Output = "", ""
+			o.Retried = true
+			again = append(again, o)
+		}
+	}
+	if len(again) > 0 {
+		p2 := par / 4
+		if p2 < 1 {
+			p2 = 1
+		}
+		pass(again, p2, timeoutMs*4)
+	}
 }
